@@ -837,8 +837,8 @@ func TestC39(t *testing.T) {
 			r.Inconclusive(fmt.Sprintf("default config file list has %d entries, expected the 5 documented ones: %q", len(defaults), defaults))
 		}
 	}
-	nIP := r.Pick(2500, 200000)
-	r.ForEach("layering", nIP, 4, func(i int, rng *rand.Rand) {
+	nIP := r.Pick(2500, 80000)
+	r.ForEach("layering", nIP, r.Pick(4, 8), func(i int, rng *rand.Rand) {
 		l := generate(rng, false)
 		mfs := &memFS{files: map[string]string{}}
 		for _, s := range l.Sources {
